@@ -173,6 +173,11 @@ class Flows:
                 h = self.hops[hopi % len(self.hops)]
                 nh = r.choice([h[0] + b":5080", b"hop1.local:5080" if hopi % 3 == 0 else h[0] + b":5080"])
                 s.routes.append((r.choice([b"udp", b"UDP"]), dest, nh))
+        # an operator groups dests that share a next hop into one route item: make neighbours share protocol and next hop
+        # now and then (the YAML style "merge" then writes them as ONE item with several dests, wildcards in any position)
+        for k in range(1, len(s.routes)):
+            if r.random() < 0.35 and s.routes[k][0].lower() in (b"udp",) and s.routes[k - 1][0].lower() in (b"udp",):
+                s.routes[k] = (s.routes[k - 1][0], s.routes[k][1], s.routes[k - 1][2])
         self.dialogs = []          # (callid, (ftag, furi), (ttag, turi), backend or None)
         self.pending = []          # requests sent to a backend: (event, request headers..., ua)
         self.foreign = []          # dialogs seen only in responses of non-backend peers (raw_response)
@@ -297,6 +302,13 @@ class Flows:
             data = msg(method + b" " + ruri + b" SIP/2.0", hs, b, cl_name=spell(r, b"Content-Length", mode))
         return data, hs
 
+    def surplus(self, data):
+        """a datagram may be longer than its message (RFC 3261 18.3: the surplus is discarded): sometimes append some"""
+        r = self.rng
+        if r.random() < 0.08 and len(data) < 50000:
+            return data + r.choice([b"a=sendrecv", b"\r\n", b"xx\r\nyy: zz\r\n\r\n", b"\x00\x00", b"INVITE sip:x SIP/2.0\r\n"])
+        return data
+
     # ---- flows
     def uri_pair(self):
         r, s = self.rng, self.s
@@ -325,7 +337,7 @@ class Flows:
         ruri = self.service_uri(hit)
         data, hs = self.request(method, ruri, ua, frm, to, callid, proto=proto)
         if conn is None:
-            e = s.ev_udp(self.li, ua, data)
+            e = s.ev_udp(self.li, ua, self.surplus(data))
         else:
             e = s.ev_data(conn, data)
         if hit and self.backends:
@@ -395,7 +407,34 @@ class Flows:
         rr = [b"<sip:up.example.net;lr>"] if r.random() < 0.4 else []
         data, hs = self.request(r.choice(METHODS), self.service_uri(r.random() < 0.5), ua, self.ft(a, b"t%d" % self.nid(), True),
                                 self.ft(b"sip:u@" + tohost, None, True), b"rc-%d" % self.nid(), routes=routes, rr=rr)
-        return s.ev_udp(self.li, ua, data)
+        return s.ev_udp(self.li, ua, self.surplus(data))
+
+    def backend_subscribe(self, d):
+        """a SUBSCRIBE issued BY a backend (from its configured address), routed to a UA, and the UA's answer relayed back
+        towards that backend: the answer binds the dialog to the backend (C04's second way of binding).  Returns the
+        dialog as dialog_history keeps it (state 2, answered = that backend), or None."""
+        r, s = self.rng, self.s
+        if not self.backends:
+            return None
+        b = r.choice(self.backends)
+        bip, bport = b.split(b":")
+        ua = r.choice(self.uas)
+        l = s.listens[self.li]
+        callid = b"bsub-%d-%s" % (d, tok(r, 1, 4, b"-"))
+        tb, tu = tok(r, 1, 5, b"-"), tok(r, 1, 5, b"-")
+        buri, uuri = b"sip:svc%d@" % d + bip, b"sip:watcher%d@a.example" % d
+        via = b"SIP/2.0/UDP " + b + b";branch=z9hG4bK-bs%d" % self.nid()
+        frm, to = b"<" + buri + b">;tag=" + tb, b"<" + uuri + b">"
+        hs = [(b"Via", via), (b"Route", b"<sip:" + ua[0] + b":%d;lr>" % ua[1]), (b"From", frm), (b"To", to), (b"Call-ID", callid),
+              (b"CSeq", b"1 SUBSCRIBE"), (b"Event", b"presence"), (b"Expires", b"600")]
+        e = s.ev_udp(self.li, (bip, int(bport)), msg(b"SUBSCRIBE " + uuri + b" SIP/2.0", hs))
+        # the UA's answer: the proxy's Via on top, then the backend's Via as the proxy relayed it (stamped unless no-received)
+        echoed = via if l["no_received"] else via + b";received=" + bip
+        code = r.choice([200, 200, 202])
+        rs = [(b"Via", b"SIP/2.0/UDP " + l["addr"] + b":%d;branch=" % l["udp"] + placeholder(e)), (b"Via", echoed), (b"From", frm),
+              (b"To", to + b";tag=" + tu), (b"Call-ID", callid), (b"CSeq", b"1 SUBSCRIBE"), (b"Expires", b"600")]
+        s.ev_udp(self.li, ua, msg(b"SIP/2.0 %d OK" % code, rs))
+        return {"callid": callid, "ta": tb, "tb": tu, "ua": buri, "ub": uuri, "state": 2, "answered": b, "method": b"SUBSCRIBE"}
 
     def cross_listener(self):
         """a next hop learned through the OTHER listener: the hop first sends a request of its own to listener 2 (the
@@ -431,7 +470,7 @@ class Flows:
         rr = [b"<sip:up.example.net;lr>"] if r.random() < 0.3 else []
         data, hs = self.request(r.choice(METHODS), b"sip:someone@" + host, ua, self.ft(a, b"s%d" % self.nid(), True), to,
                                 b"sc-%d" % self.nid(), rr=rr)
-        return s.ev_udp(self.li, ua, data)
+        return s.ev_udp(self.li, ua, self.surplus(data))
 
     def raw_response(self, method=None, code=None):
         """a response with an arbitrary Via stack, from a non-backend peer; its dialog (both tags, no
@@ -604,7 +643,13 @@ def dialog_history(rng, block, n_dialogs=None, n_backends=None, opts=None):
         if k < 0.2:
             f.static_request()
             continue
-        if k < 0.27:
+        if 0.2 <= k < 0.24 and len(dialogs) < nd + 3:
+            # a subscription started BY a backend: the answer relayed towards it binds the dialog to it
+            nd_ = f.backend_subscribe(100 + len(dialogs))
+            if nd_ is not None:
+                dialogs.append(nd_)
+            continue
+        if k < 0.30:
             # a dialog the backends never saw: established by a response of a non-backend peer, then used
             if f.foreign and r.random() < 0.6:
                 f.in_dialog_request(r.choice(f.foreign))
@@ -666,14 +711,69 @@ def dialog_history(rng, block, n_dialogs=None, n_backends=None, opts=None):
     return f
 
 
+def membership_history(rng, block):
+    """C19 / C05 / C04 at the level of the whole proxy: one backend of the listener is given by host NAME; its addresses
+    come and go through the real resolver path (addressResolved -> notification goroutine -> hostIPChanged ->
+    Add/RemoveBackend -> the proxy's backend index).  In between: unpinned requests (they go to registered backends
+    only, in rotation), dialogs answered by a member (pinned to it), requests of a dialog whose backend has been removed
+    (load-balanced again), answers coming from an address that is no member any more (no longer attributed)."""
+    r = rng
+    o = {"backends": r.choice([0, 0, 1, 2]), "names": b"svc.example.com", "tcp": False, "two_listeners": False,
+         "routes": 0, "tcphops": False, "dyn": True}
+    f = Flows(r, block, o)
+    s = f.s
+    l = s.listens[f.li]
+    port = l["backends"][0].split(b":")[1] if l["backends"] else b"5070"
+    pool = [s.ip(14 + i) + b":" + port for i in range(4)]
+    for a in pool:
+        s.udp_ep(a.split(b":")[0], int(port))
+    static = list(f.backends)
+    dynamic = []
+    gone = []
+    dialogs = []          # pending entries answered by some member
+    for _ in range(r.randrange(6, 22)):
+        f.backends = static + dynamic          # what backend_response / to_service may use
+        k = r.random()
+        if k < 0.22 and len(dynamic) < len(pool):
+            a = r.choice([x for x in pool if x not in dynamic])
+            dynamic.append(a)
+            if a in gone:
+                gone.remove(a)
+            s.ev_badd(f.li, a)
+        elif k < 0.36 and dynamic:
+            a = r.choice(dynamic)
+            dynamic.remove(a)
+            gone.append(a)
+            s.ev_brem(f.li, a)
+        elif k < 0.62:
+            f.to_service(method=r.choice([b"INVITE", b"INVITE", b"OPTIONS", b"MESSAGE", b"SUBSCRIBE"]))
+        elif k < 0.8 and f.pending and f.backends:
+            p = r.choice(f.pending)
+            f.backend_response(p, code=r.choice([180, 200, 200]), own_expires=False)
+            if p not in dialogs:
+                dialogs.append(p)
+        elif k < 0.88 and f.pending and gone:
+            # an answer from an address that has left the set
+            f.backend_response(r.choice(f.pending), code=200, from_backend=r.choice(gone), own_expires=False)
+        elif dialogs:
+            p = r.choice(dialogs)
+            if p.get("totag"):
+                f.in_dialog_request(p)
+        else:
+            f.to_service()
+    return f
+
+
 def timed_history(rng, block):
     """C15 on the real binary, in real time: dialogTimeout 2 s.  Dialogs are pinned by their backend's answer (without
     Expires, or with Expires 1 / 3: lifetime max(2, Expires) seconds); each is probed well inside its lifetime (must reach
     its backend), real time passes beyond the lifetime, and it is probed again (must be load-balanced like a new request);
     unrelated requests advance the rotation in between."""
     r = rng
+    # one history in eight: dialogTimeout 0 or -1, which stands for the built-in 1200 s: every probe finds its pin alive
+    dt = 2 if r.random() < 0.875 else r.choice([0, -1])
     o = {"backends": r.randrange(2, 5), "names": b"svc.example.com", "tcp": False, "two_listeners": False, "routes": 0,
-         "tcphops": False, "dialog_timeout": 2, "keep": False}
+         "tcphops": False, "dialog_timeout": dt, "keep": False}
     f = Flows(r, block, o)
     s = f.s
     ds = []
@@ -687,7 +787,7 @@ def timed_history(rng, block):
         exp = r.choice([False, False, b"1", b"3"])
         f.backend_response({"e": e, "hs": hs, "ua": ua, "method": b"INVITE", "callid": callid, "frm": frm, "to": to, "totag": tb},
                            code=200, from_backend=r.choice(f.backends), own_expires=exp)
-        ds.append({"frm": frm, "to": to + b";tag=" + tb, "callid": callid, "life": 3 if exp == b"3" else 2})
+        ds.append({"frm": frm, "to": to + b";tag=" + tb, "callid": callid, "life": 1200 if dt <= 0 else 3 if exp == b"3" else 2})
 
     def unrelated():
         for _ in range(r.randrange(0, 3)):
@@ -709,7 +809,7 @@ def timed_history(rng, block):
         unrelated()
     s.ev_wait(2600 - s.waits[-1][1])                      # 2.6 s after the start: the 2-second pins are over
     for d in ds:
-        if d["life"] == 2:
+        if d["life"] != 3:
             probe(d)
             unrelated()
     if any(d["life"] == 3 for d in ds):
